@@ -77,17 +77,17 @@ func fixtureDir() string {
 // ---- case description ----
 
 type c13Case struct {
-	Strategy  string `json:"strategy"` // whole patch writefile pgp-detached pgp-inline pgp-clearsign msi pe-fixup
-	DestMode  string `json:"dest"`     // other-absent other-present same
-	HardLink  bool   `json:"hardlink"`
-	RespBreak int    `json:"resp_break"` // >0: the response stream fails after that many bytes (whole/pgp-detached)
-	In        []byte `json:"-"`
-	Old       []byte `json:"-"`
-	Result    []byte `json:"-"` // what the "server" returned
-	Mime      string `json:"mime"`
-	Desc      string `json:"desc"`
+	Strategy  string    `json:"strategy"` // whole patch writefile pgp-detached pgp-inline pgp-clearsign msi pe-fixup
+	DestMode  string    `json:"dest"`     // other-absent other-present same
+	HardLink  bool      `json:"hardlink"`
+	RespBreak int       `json:"resp_break"` // >0: the response stream fails after that many bytes (whole/pgp-detached)
+	In        []byte    `json:"-"`
+	Old       []byte    `json:"-"`
+	Result    []byte    `json:"-"` // what the "server" returned
+	Mime      string    `json:"mime"`
+	Desc      string    `json:"desc"`
 	Cli       *signCase `json:"cli,omitempty"`
-	CliKey    string `json:"cli_key,omitempty"`
+	CliKey    string    `json:"cli_key,omitempty"`
 	// Valid, when set, recognises complete new contents that differ in
 	// encoding from the fault-free run's bytes (PGP inline falls back to
 	// partial-length framing when it cannot size the input).
@@ -152,6 +152,14 @@ func c13Exec(root string, c *c13Case, plan core.FSPlan) *c13Outcome {
 		// the output path is a symbolic link to an existing regular file
 		must(os.WriteFile(filepath.Join(root, "target.dat"), c.Old, 0o600))
 		must(os.Symlink("target.dat", dest))
+	}
+	if c.DestMode == "link-of-input" {
+		// the output path is another name of the input's inode (a staging tree
+		// made with cp -al): a different path, so not "patched in place"
+		must(os.Link(in, dest))
+	}
+	if c.DestMode == "symlink-to-input" {
+		must(os.Symlink("in.dat", dest))
 	}
 	if c.HardLink {
 		must(os.Link(in, link))
@@ -328,7 +336,7 @@ func c13Gen(r *core.Run) *c13Case {
 	t := r.T
 	c := &c13Case{}
 	c.Strategy = core.Pick(t, "strategy", "whole", "patch", "patch", "writefile", "pgp-detached", "pgp-inline", "pgp-clearsign", "msi", "pe-fixup", "cli", "cli")
-	c.DestMode = core.Pick(t, "dest", "other-present", "other-absent", "same", "symlink")
+	c.DestMode = core.Pick(t, "dest", "other-present", "other-absent", "same", "symlink", "other-present", "other-absent", "same", "symlink", "link-of-input", "symlink-to-input")
 	sizes := []int{1, 17, 4096, 32 * 1024, 32*1024 + 1, 70000, 200000}
 	c.Mime = "application/octet-stream"
 	switch c.Strategy {
@@ -532,7 +540,7 @@ func c13Run(r *core.Run) {
 	switch c.DestMode {
 	case "other-present", "symlink":
 		oldDest, destExisted = c.Old, true
-	case "same":
+	case "same", "link-of-input", "symlink-to-input":
 		oldDest, destExisted = c.In, true
 	}
 	var news [][]byte // acceptable complete new contents
@@ -622,28 +630,39 @@ func c13Run(r *core.Run) {
 			if (o.Kind == "write" || o.Kind == "writeat") && core.TornPrefix(o.Len) > 0 && e == syscall.ENOSPC {
 				shorts = append(shorts, core.TornPrefix(o.Len))
 			}
-			for _, sh := range shorts {
-				out := c13Exec(root, c, core.FSPlan{FailAt: o.Seq, FailErr: e, FailShort: sh})
-				r.Evals++
-				at := o.Kind + ":" + pathClass(o.Path)
-				r.Sig(fmt.Sprintf("fail/%s/%s/%v/%d", label, at, int(e), btoi(sh > 0)))
-				r.Fault("errno-" + errName(e))
-				if sh > 0 {
-					r.Fault("short-write")
-				}
-				if out.hung {
-					for _, l := range out.stacks {
-						r.Logf("blocked: %s", l)
+			// a persistent condition (the retry fails too) for the calls code
+			// is tempted to retry or work around
+			stickies := []bool{false}
+			if (o.Kind == "rename" || o.Kind == "remove" || o.Kind == "chmod" || o.Kind == "fchmod") && e != syscall.EIO {
+				stickies = append(stickies, true)
+			}
+			for _, sticky := range stickies {
+				for _, sh := range shorts {
+					out := c13Exec(root, c, core.FSPlan{FailAt: o.Seq, FailErr: e, FailShort: sh, FailSticky: sticky})
+					r.Evals++
+					at := o.Kind + ":" + pathClass(o.Path)
+					r.Sig(fmt.Sprintf("fail/%s/%s/%v/%d/%v", label, at, int(e), btoi(sh > 0), sticky))
+					r.Fault("errno-" + errName(e))
+					if sticky {
+						r.Fault("errno-persistent")
 					}
-					r.Failf("C13.hang", c.Strategy+"/"+at, "%s: op %s failing with %v: the output phase never returns (all its goroutines are blocked for good) - the error is not handled and the temporary file stays", label, o.String(), e)
-					continue
+					if sh > 0 {
+						r.Fault("short-write")
+					}
+					if out.hung {
+						for _, l := range out.stacks {
+							r.Logf("blocked: %s", l)
+						}
+						r.Failf("C13.hang", c.Strategy+"/"+at, "%s: op %s failing with %v: the output phase never returns (all its goroutines are blocked for good) - the error is not handled and the temporary file stays", label, o.String(), e)
+						continue
+					}
+					if out.panicked != nil {
+						r.Failf("C13.panic", c.Strategy+"/"+at, "%s: op %s failing with %v made the output phase panic: %v", label, o.String(), e, out.panicked)
+						continue
+					}
+					cleanupHit := o.Kind == "remove" && (pathClass(o.Path) == "tmp" || sticky)
+					c13CheckFinal(r, c, label, at, errName(e), out, oldDest, destExisted, news, cleanupHit)
 				}
-				if out.panicked != nil {
-					r.Failf("C13.panic", c.Strategy+"/"+at, "%s: op %s failing with %v made the output phase panic: %v", label, o.String(), e, out.panicked)
-					continue
-				}
-				cleanupHit := o.Kind == "remove" && pathClass(o.Path) == "tmp"
-				c13CheckFinal(r, c, label, at, errName(e), out, oldDest, destExisted, news, cleanupHit)
 			}
 		}
 	}
